@@ -5,6 +5,7 @@
 //!                non-transparent pixels with the reported absolute box (groups: abs layer box; paths, text,
 //!                images: abs stroke box) grown by `margin` pixels.
 //!                -> {"nodes":n,"checked":k,"skipped":s,"painted":p,"bad":[{...}],"max_excess":e}
+//!   png-extent   payload `path` -> size and painted extent of a PNG (CLI zoom stage)
 use crate::dump::{esc, num};
 use crate::util::*;
 use tiny_skia::Transform;
@@ -300,8 +301,21 @@ fn op_cli_export(payload: &str) -> String {
     out
 }
 
+/// png-extent  payload `path` -> {"size":[w,h],"extent":[x0,y0,x1,y1]|null} of the non-transparent pixels of a PNG file
+fn op_png_extent(payload: &str) -> String {
+    let bytes = match std::fs::read(payload.trim()) {
+        Ok(b) => b,
+        Err(e) => return format!("{{\"error\":{}}}", esc(&format!("read: {}", e))),
+    };
+    match tiny_skia::Pixmap::decode_png(&bytes) {
+        Ok(pm) => format!("{{\"size\":[{},{}],\"extent\":{}}}", pm.width(), pm.height(), ext_json(painted_extent(&pm))),
+        Err(e) => format!("{{\"error\":{}}}", esc(&format!("png: {}", e))),
+    }
+}
+
 pub fn dispatch(op: &str, _args: &[String]) -> bool {
     match op {
+        "png-extent" => run_batch(op_png_extent),
         "node-paint" => run_batch(op_node_paint),
         "cli-export" => run_batch(op_cli_export),
         _ => return false,
